@@ -1,5 +1,6 @@
 import Driver.Proto
 import AGH.Spec.DHCP
+import AGH.Model.LeaseDB
 open Driver AGH AGH.C10
 
 /-! Line-protocol driver of C10 (DHCPv4 lease table).  Block = `C10.reset` + operations. -/
@@ -79,7 +80,12 @@ def pObs : P Obs := do
   let bits ← pBits
   let extra ← pNat
   let disk ← pDisk
-  pure { now := now, leases := leases, hosts := hosts, ips := ips, bits := bits, extraBits := extra, disk := disk }
+  let nq ← pNat
+  let byIP ← pMany (do let ip ← pNat; let h ← pHex; let m ← pHex; pure (ip, h, m)) nq
+  let nh2 ← pNat
+  let byHost ← pMany (do let h ← pHex; let ip ← pNat; pure (h, ip)) nh2
+  pure { now := now, leases := leases, hosts := hosts, ips := ips, bits := bits, extraBits := extra, disk := disk,
+         byIP := byIP, byHost := byHost }
 
 def pInt : P Int := do
   let t ← tok
@@ -127,7 +133,11 @@ def showObs (o : Obs) : List String :=
   [String.ofList (o.bits.map (fun b => if b then '1' else '0')), toString o.extraBits] ++
   (match o.disk with
    | none => ["nofile"]
-   | some d => [toString d.length] ++ d.flatMap showLease)
+   | some d => [toString d.length] ++ d.flatMap showLease) ++
+  (let byIP := sortBy (fun (a b : Nat × Bytes × Bytes) => a.1 < b.1) o.byIP
+   let byHost := sortBy (fun (a b : Bytes × Nat) => bytesLt a.1 b.1) o.byHost
+   [toString byIP.length] ++ byIP.flatMap (fun (ip, h, m) => [toString ip, hexEncode h, hexEncode m]) ++
+   [toString byHost.length] ++ byHost.flatMap (fun (h, ip) => [hexEncode h, toString ip]))
 
 def showReply (r : Reply) : List String := [toString r.rc, toString r.typ, toString r.yi, r.err]
 
@@ -152,9 +162,20 @@ structure DS where
   st : State
   prev : Obs
   ready : Bool
+  /-- wall-clock second of model time 1000 -/
+  base : Nat := 0
 
 def DS.init : DS :=
   { conf := default, tab := ⟨[]⟩, st := State.init, prev := Obs.empty, ready := false }
+
+/-- The assumptions the theorems make about the hostname oracle (`OracleOK`),
+checked on the shipped table: normalising a normalised name changes nothing, and
+the generated names of the pool are normalised and valid. -/
+def oracleSane (c : Conf) (rows : List (Bytes × Bool × Bytes × Bool)) : Bool :=
+  rows.all (fun (_, err, norm, _) => err || norm == [] ||
+    rows.any (fun (raw', err', norm', _) => raw' == norm && !err' && norm' == norm)) &&
+  ((List.range (c.stop + 1 - c.start)).map (c.start + ·)).all (fun a =>
+    rows.any (fun (raw', err', norm', v') => raw' == genHost a && !err' && norm' == genHost a && v'))
 
 def pRow : P (Bytes × Bool × Bytes × Bool) := do
   let raw ← pHex
@@ -221,7 +242,23 @@ def runP {α : Type} (p : P α) (fs : List String) : Option α :=
   | none => none
 
 def implOut (impl : List String) : Option (Reply × Obs) :=
-  runP (do let r ← pReply; let o ← pObs; pure (r, o)) impl
+  runP (do let r ← pReply; let o ← pObs; pure (r, o)) (impl.filter (fun f => !f.startsWith "file="))
+
+/-- The bytes the model says are in `leases.json` (`file=-`: no file). -/
+def fileToken (base : Nat) (st : State) : String :=
+  match st.disk with
+  | none => "file=-"
+  | some d => "file=" ++ hexEncode (encodeDB (fmtExpAt base) d)
+
+/-- The model's decoder reads the real bytes as the real `dbLoad` did (the records the harness parsed). -/
+def decodesAlike (base : Nat) (impl : List String) (o : Obs) : Bool :=
+  match impl.find? (fun f => f.startsWith "file="), o.disk with
+  | some f, some d =>
+    (match hexDecode (f.drop 5).toString with
+     | some bytes => decodeDB (parseExpAt base) bytes == some (d.map LeaseV.norm)
+     | none => false)
+  | some f, none => f == "file=-"
+  | none, _ => true
 
 def stepLine (ds : DS) (line : String) : DS × String :=
   match splitTab line with
@@ -229,9 +266,14 @@ def stepLine (ds : DS) (line : String) : DS × String :=
   | name :: rest =>
     match splitArrow rest with
     | none => (ds, "bad-op")
-    | some (ins0, impl) =>
+    | some (ins0, impl0) =>
+      let impl := impl0.filter (fun f => !f.startsWith "fix=" && !f.startsWith "base=")
       -- the trailing history tag of an operation line is not part of the case
       let ins := ins0.filter (fun f => !f.startsWith "h=")
+      -- the tree's repair level (R3, R4), reported by the harness with the reset line; absent = the tree as it is
+      let tagged := impl0.any (fun f => f.startsWith "fix=")
+      let fixR3 := !tagged || impl0.any (fun f => f == "fix=10" || f == "fix=11")
+      let fixR4 := !tagged || impl0.any (fun f => f == "fix=01" || f == "fix=11")
       if name == "C10.reset" then
         let parsed := runP (do
           let gw ← pNat
@@ -241,14 +283,16 @@ def stepLine (ds : DS) (line : String) : DS × String :=
           let lt ← pNat
           let n ← pNat
           let rows ← pMany pRow n
-          pure (({ gw := gw, maskLen := mask, start := start, stop := stop, leaseTime := lt, sid := 3232238082 } : Conf), rows)) ins
+          pure (({ gw := gw, maskLen := mask, start := start, stop := stop, leaseTime := lt, sid := 3232238082, fixR3 := fixR3, fixR4 := fixR4 } : Conf), rows)) ins
         match parsed with
         | none => (ds, "bad-op")
         | some (c, rows) =>
+          if !oracleSane c rows then (ds, "bad-op") else
           let st := State.init
           -- the model's verdict on the configuration (`V4ServerConf.Validate`)
+          let base := (impl0.find? (fun f => f.startsWith "base=")).bind (fun f => (f.drop 5).toString.toNat?) |>.getD 0
           let model :=
-            if validate c then String.intercalate "\t" (showReply (Reply.api "ok") ++ showObs (obsOf c st))
+            if validate c then String.intercalate "\t" (showReply (Reply.api "ok") ++ showObs (obsOf c st) ++ [fileToken base st])
             else "1\t0\t0\trejected"
           let agree := model == String.intercalate "\t" impl
           if impl == ["1", "0", "0", "rejected"] then
@@ -259,7 +303,7 @@ def stepLine (ds : DS) (line : String) : DS × String :=
               -- the implementation runs with this configuration (whatever the model thinks of it):
               -- the history is followed and monitored
               let why := specWhy c Obs.empty (.sleep 0) r o
-              ({ conf := c, tab := ⟨rows⟩, st := st, prev := o, ready := true }, verdict agree why model)
+              ({ conf := c, tab := ⟨rows⟩, st := st, prev := o, ready := true, base := base }, verdict agree why model)
             | none => (ds, "bad-op")
       else if !ds.ready then (ds, "bad-op")
       else
@@ -267,10 +311,16 @@ def stepLine (ds : DS) (line : String) : DS × String :=
         | some op, some (r, o) =>
           if (match op.rawHost? with | some h => !ds.tab.has h | none => false) then (ds, "bad-op")
           else
-            let (st', mr) := step ds.tab.oracle ds.conf ds.st op
+            let (st1, mr) := step ds.tab.oracle ds.conf ds.st op
+            -- `writeDB` sorts with an unstable sort: if the file holds another sorted
+            -- permutation of the same records, the model takes that order (`Op.reorder`,
+            -- which checks that it is one)
+            let st' := match o.disk with
+              | some d => if st1.disk == some d then st1 else (step ds.tab.oracle ds.conf st1 (.reorder d)).1
+              | none => st1
             let mo := obsOf ds.conf st'
-            let model := String.intercalate "\t" (showReply mr ++ showObs mo)
-            let agree := model == String.intercalate "\t" impl
+            let model := String.intercalate "\t" (showReply mr ++ showObs mo ++ [fileToken ds.base st'])
+            let agree := model == String.intercalate "\t" impl && decodesAlike ds.base impl o
             let why := specWhy ds.conf ds.prev op r o
             ({ ds with st := st', prev := o }, verdict agree why model)
         | some op, none =>
